@@ -138,20 +138,23 @@ def build_concatenated(dendropy, am):
 
 
 def with_junk(am, junk):
-    """every column followed by a junk column (to be dropped again by export_character_indices)"""
+    """every column preceded by a junk column (to be dropped again by export_character_indices)"""
     rows = []
     for r in am["rows"]:
         q = []
         for c in r:
-            q.extend([c, junk])
+            q.extend([junk, c])
         rows.append(q)
     return {"type": am["type"], "taxa": am["taxa"], "rows": rows}
 
 
 def build_exported(dendropy, am, junk):
-    parent = build_from_dict(dendropy, with_junk(am, junk))
+    """exported from a larger matrix: the parent is itself a concatenation (it carries character subsets),
+    except for standard data, whose concatenation is a separate open finding"""
+    wide = with_junk(am, junk)
+    parent = build_from_dict(dendropy, wide) if am["type"] == "standard" else build_concatenated(dendropy, wide)
     n = max(len(r) for r in am["rows"])
-    return parent.export_character_indices([2 * j for j in range(n)])
+    return parent.export_character_indices([2 * j + 1 for j in range(n)])
 
 
 def build_exported_typed(dendropy, am, junk):
@@ -160,7 +163,7 @@ def build_exported_typed(dendropy, am, junk):
     cls = matrix_class(dendropy, am["type"])
     parent = cls.get(data=render("nexml", st), schema="nexml")
     n = max(len(r) for r in am["rows"])
-    return parent.export_character_indices([2 * j for j in range(n)])
+    return parent.export_character_indices([2 * j + 1 for j in range(n)])
 
 
 # ----------------------------------------------------------------------------- python-side rendering of source streams
